@@ -57,6 +57,11 @@ func (s *sm) Apply(op *raft.Operation) interface{} {
 }
 
 func (s *sm) Snapshot(w io.Writer) error {
+	// Fake time stands still while goroutines compute, and the repository names snapshot
+	// directories by time.Now().UnixNano(): two snapshots of one node in one fake instant
+	// would collide ("file exists" -> Fatal -> the whole test process exits). A snapshot takes
+	// a little (fake) time, as it does on real hardware.
+	time.Sleep(time.Duration(1+s.calls.Add(1)%997) * time.Nanosecond)
 	s.mu.Lock()
 	defer s.mu.Unlock()
 	var b bytes.Buffer
